@@ -477,6 +477,22 @@ def consumer(ex, st, call, args):
         return _consume(ex, st, T, on_item, lambda s, acc: _ret(s, UNIT), None)
     if m == "last" and len(args) == 1:
         return _consume(ex, st, T, lambda s, acc, it: iter([(s, some(it), None)]), lambda s, acc: _ret(s, acc), NONE)
+    if m in ("min_by", "max_by") and len(args) == 2:
+        # core: min_by keeps the first of several minimal elements (replace only on Greater), max_by the last (keep only on Greater)
+        from .symex import _ord_cases
+
+        def on_item(s, acc, it):
+            if acc is None:
+                yield s, (it,), None
+                return
+            cur = acc[0]
+            for s2, v in call_fn_value(ex, s, args[1], [("&", cur), ("&", it)]):
+                for s3, name, _ in _ord_cases(ex, s2, v):
+                    if m == "min_by":
+                        yield s3, ((it,) if name == "Greater" else acc), None
+                    else:
+                        yield s3, (acc if name == "Greater" else (it,)), None
+        return _consume(ex, st, T, on_item, lambda s, acc: _ret(s, NONE if acc is None else some(acc[0])), None)
     if m == "collect" and len(args) == 1 and "Vec" in str(call.raw.get("dest_ty", "")):
         return _consume(ex, st, T, lambda s, acc, it: iter([(s, acc + (it,), None)]),
                         lambda s, acc: _ret(s, ("call", "vec!", (("array", acc),))), ())
